@@ -172,6 +172,13 @@ def run(pid, tier, seed, args, t0):
         return 2
     known = vlib.load_known()
     known_sigs = {(k["property"], k["signature"]): k for k in known.get("findings", [])}
+    # (property, source, verdict family, comment slot) of every listed single-comment finding: a failure of a case
+    # with two comments is attributed to one of its comments when that comment alone is listed for the same family
+    known_slots = {}
+    for k in known.get("findings", []):
+        sp = signatures.slot_prefix(k["signature"])
+        if sp is not None:
+            known_slots.setdefault((k["property"],) + sp, k["signature"])
     seen_known = {}
     violations = []
     drift = 0
@@ -220,6 +227,12 @@ def run(pid, tier, seed, args, t0):
                 alts = signatures.single_comment_variants(pid, f["w"], src, case, ce, f.get("i", 0), otag) + \
                        (signatures.single_comment_variants(pid, f["w"], src, case, ce, f.get("i", 0), "") if otag else [])
                 hit = next((a for a in alts if (pid, a) in known_sigs), None)
+                if hit is None and alts:
+                    for a in alts:
+                        sp = signatures.slot_prefix(a)
+                        if sp is not None and (pid,) + sp in known_slots:
+                            hit = known_slots[(pid,) + sp]
+                            break
                 if hit is not None:
                     seen_known.setdefault(hit, rec)
                 else:
